@@ -19,10 +19,11 @@ pub struct Env<'a> {
     /// first panic caught on a helper thread
     pub fail: &'a std::sync::Mutex<Option<vcore::Fail>>,
     /// frames captured by `CaptureFrame` items, by slot, until a `RunFrame` takes them
-    pub frames: &'a [std::sync::Mutex<Option<CapturedFrame<'a>>>],
+    pub frames: &'a [std::sync::Mutex<Option<CapturedFrame>>],
 }
 
-pub type CapturedFrame<'a> = Frame<&'a emit_traceparent::TraceparentCtxt<emit::platform::thread_local_ctxt::ThreadLocalCtxt>>;
+/// (the ctxt is `Copy`: the frame owns a copy, so it borrows nothing)
+pub type CapturedFrame = Frame<emit_traceparent::TraceparentCtxt<emit::platform::thread_local_ctxt::ThreadLocalCtxt>>;
 
 impl<'a> Env<'a> {
     fn push(&self, l: L) {
@@ -587,18 +588,18 @@ fn spawn_tasks<'a>(env: &'a Env<'a>, carry: bool, tasks: &'a [Vec<PItem>]) -> Ve
 // ---------------------------------------------------------------------------------------------
 // non-span frames captured at one point and entered at another
 
-fn capture_frame<'a>(env: &Env<'a>, slot: usize, props: bool) {
-    let rt: &'a Rt = env.rt;
+fn capture_frame(env: &Env, slot: usize, props: bool) {
+    let ctxt = *env.rt.ctxt();
     let frame = if props {
         let job = slot as u64;
-        Frame::push(rt.ctxt(), emit::props! { job })
+        Frame::push(ctxt, emit::props! { job })
     } else {
-        Frame::current(rt.ctxt())
+        Frame::current(ctxt)
     };
     *env.frames[slot].lock().unwrap() = Some(frame);
 }
 
-fn run_frame_elsewhere(env: &Env, frame: CapturedFrame<'_>, items: &[PItem], pre: usize, end: Option<usize>) {
+fn run_frame_elsewhere(env: &Env, frame: CapturedFrame, items: &[PItem], pre: usize, end: Option<usize>) {
     let r = std::thread::scope(|s| {
         s.spawn(move || {
             vcore::catch(move || {
